@@ -857,8 +857,13 @@ func (c *FCtx) phiTerm(p *ssa.Phi) *Term {
 		var init ssa.Value
 		var step ssa.Value
 		ok := true
+		selfEdge := false
 		for i, e := range p.Edges {
 			if l.Body[p.Block().Preds[i]] {
+				if e == p {
+					selfEdge = true // an iteration that leaves the value unchanged
+					continue
+				}
 				if step != nil && step != e {
 					ok = false
 				}
@@ -871,7 +876,10 @@ func (c *FCtx) phiTerm(p *ssa.Phi) *Term {
 			}
 		}
 		if ok && init != nil && step != nil {
-			if t := c.appendPhi(p, l, init, step); t != nil {
+			if t := c.appendPhi(p, l, init, step, selfEdge); t != nil {
+				return t
+			}
+			if t := c.sumPhi(p, l, init, step, selfEdge); t != nil {
 				return t
 			}
 		}
@@ -930,8 +938,80 @@ func (c *FCtx) boolPhi(p *ssa.Phi) *Term {
 	return T("or", "", args...)
 }
 
+// sumPhi recognises  acc = phi(0, acc + x)  and  acc = phi(0, phi(acc, acc + x))  (guarded accumulation).
+func (c *FCtx) sumPhi(p *ssa.Phi, l *Loop, init, step ssa.Value, selfEdge bool) *Term {
+	if !l.Clean || !isConstInt(init, 0) {
+		return nil
+	}
+	if b, ok := p.Type().Underlying().(*types.Basic); !ok || b.Info()&types.IsInteger == 0 {
+		return nil
+	}
+	coll := c.Term(l.Coll)
+	var add *ssa.BinOp
+	guard := tTrue
+	switch s := step.(type) {
+	case *ssa.BinOp:
+		add = s
+		if selfEdge || !l.dominatesAllLatches(s.Block()) {
+			b := add.Block()
+			if len(b.Preds) != 1 {
+				return nil
+			}
+			ifi, ok := b.Preds[0].Instrs[len(b.Preds[0].Instrs)-1].(*ssa.If)
+			if !ok {
+				return nil
+			}
+			guard = c.Term(ifi.Cond)
+			if b.Preds[0].Succs[1] == b {
+				guard = Not(guard)
+			}
+		}
+	case *ssa.Phi:
+		for _, e := range s.Edges {
+			if e == p {
+				continue
+			}
+			bo, ok := e.(*ssa.BinOp)
+			if !ok || add != nil {
+				return nil
+			}
+			add = bo
+		}
+		if add == nil {
+			return nil
+		}
+		// the add block must be the direct then/else target of one If
+		b := add.Block()
+		if len(b.Preds) != 1 {
+			return nil
+		}
+		ifi, ok := b.Preds[0].Instrs[len(b.Preds[0].Instrs)-1].(*ssa.If)
+		if !ok {
+			return nil
+		}
+		guard = c.Term(ifi.Cond)
+		if b.Preds[0].Succs[1] == b {
+			guard = Not(guard)
+		}
+	default:
+		return nil
+	}
+	if add.Op != token.ADD {
+		return nil
+	}
+	var x ssa.Value
+	if add.X == p {
+		x = add.Y
+	} else if add.Y == p {
+		x = add.X
+	} else {
+		return nil
+	}
+	return T("sum", "", coll, generalize(c.Term(x), l, coll), generalize(guard, l, coll))
+}
+
 // appendPhi recognises  s = phi(init, append(s, x))  possibly through an inner conditional phi.
-func (c *FCtx) appendPhi(p *ssa.Phi, l *Loop, init, step ssa.Value) *Term {
+func (c *FCtx) appendPhi(p *ssa.Phi, l *Loop, init, step ssa.Value, selfEdge bool) *Term {
 	if !l.Clean {
 		return nil
 	}
@@ -941,7 +1021,7 @@ func (c *FCtx) appendPhi(p *ssa.Phi, l *Loop, init, step ssa.Value) *Term {
 	}
 	coll := c.Term(l.Coll)
 	var call *ssa.Call
-	conditional := false
+	conditional := selfEdge
 	switch s := step.(type) {
 	case *ssa.Call:
 		call = s
